@@ -7,6 +7,7 @@ package c01
 import (
 	"encoding/json"
 	"fmt"
+	"strings"
 
 	"verif/internal/fw"
 	"verif/internal/prog"
@@ -61,7 +62,7 @@ func checkOneAnnounced(p prog.Program, o prog.Options, st *fw.Stats, announce fu
 	if announce != nil && !announce(src) {
 		return src, ""
 	}
-	prod := prog.RunProd(src, o)
+	prod, again := prog.RunProdTwice(src, o)
 	st.Evals++
 	if prod.Static {
 		st.Count("static_reject."+p.Profile, 1)
@@ -83,7 +84,22 @@ func checkOneAnnounced(p prog.Program, o prog.Options, st *fw.Stats, announce fu
 	default:
 		st.Outcome(fmt.Sprintf("%s:ok:%d-events", p.Profile, min(len(ref.Trace), 12)))
 	}
-	return src, prog.Compare(prod, ref)
+	if d := prog.Compare(prod, ref); d != "" {
+		return src, d
+	}
+	// the same compiled program initialised once more on the same thread observes the same
+	if again != nil && prod.Inconcl == "" && again.Inconcl == "" {
+		st.Count("second_executions_on_the_same_thread", 1)
+		switch {
+		case again.Panic != "":
+			return src, "the second execution of the same compiled program on the same thread panicked: " + again.Panic
+		case strings.Join(again.Trace, "|") != strings.Join(prod.Trace, "|") || again.Globals != prod.Globals || again.Failed != prod.Failed ||
+			again.ErrPos != prod.ErrPos || strings.Join(again.Frames, " ") != strings.Join(prod.Frames, " ") || again.Steps != prod.Steps:
+			return src, fmt.Sprintf("the second execution of the same compiled program on the same thread differs from the first: trace %v vs %v; globals %s vs %s; failed %v@%v [%s] steps %d vs %v@%v [%s] steps %d",
+				again.Trace, prod.Trace, again.Globals, prod.Globals, again.Failed, again.ErrPos, strings.Join(again.Frames, " "), again.Steps, prod.Failed, prod.ErrPos, strings.Join(prod.Frames, " "), prod.Steps)
+		}
+	}
+	return src, ""
 }
 
 func worker(c *fw.Ctx) *fw.Stats {
@@ -221,7 +237,7 @@ func init() {
 		Rule: "every program of each grammar profile (expr, plus, assign, control, scope, call, load, comp, fold, escape, alias, chains) of size level n, n = 1, 2, ... (iterative deepening), " +
 			"rendered to source and executed by the production pipeline and by the reference evaluator under the needed options, all options on, and (every 64th) all 16 combinations of set/while/recursion/top-level control; " +
 			"compared: probe trace with argument values, final globals with aliasing, success/failure and the position of the failing operation; " +
-			"non-trivial = program runs in which at least one probe fired or the program failed",
+			"every statically valid program is also initialised a second time from the same compiled Program on the same thread and must observe the same; non-trivial = program runs in which at least one probe fired or the program failed",
 		Run: run, Worker: worker, Replay: replay,
 		Assumptions: []string{
 			"primitive value operations are shared with production (exported starlark.Binary/Compare/Call/Iterate): their semantics are the subject of C10-C13",
